@@ -500,7 +500,7 @@ func (e *Engine) RunTasks() {
 	}
 	e.Stats.SimNs = int64(time.Since(start))
 	g1 := runtime.NumGoroutine()
-	for i := 0; i < 200 && g1 != g0; i++ {
+	for i := 0; i < 4000 && g1 != g0; i++ { // about a second of real time on an idle machine, only spent when the count is off
 		// a goroutine that has returned may still be on its way out (it counts until
 		// the runtime has retired it): give it real time; a leaked one stays
 		runtime.Gosched()
